@@ -16,6 +16,7 @@ import shutil
 import subprocess
 import sys
 import tempfile
+import warnings
 
 from harness import common, modgen
 from harness.common import Sym
@@ -81,6 +82,16 @@ def _worker(job):
     path = os.path.join(tmp, 'xdverif_c10_m%d.py' % idx)
     with open(path, 'w') as f:
         f.write(src)
+    # queries must not have side effects: ask every doctest whether the pytest plugin would skip it (as a pytest session earlier
+    # in the same process does) before the native runner is used
+    from xdoctest import core as _core
+    with warnings.catch_warnings():
+        warnings.simplefilter('ignore')
+        try:
+            for _e in _core.parse_doctestables(path, analysis='static'):
+                _e.is_disabled(pytest=True)
+        except Exception:
+            pass
     results = []
     cmds = ['all', 'list'] + [u for u, _, _ in ids] + sorted(set(c for _, c, _ in ids)) + ['no_such_doctest']
     for cmd in cmds:
@@ -98,7 +109,7 @@ def run(ctx):
     try:
         jobs = []
         idx = 0
-        K = modgen.KINDS
+        K = modgen.KINDS + modgen.NATIVE_ONLY_KINDS
         maxn = 2 if quick else 3
         for n in range(0, maxn + 1):
             for kinds in itertools.product(K, repeat=n):
